@@ -71,9 +71,14 @@ func (t *SingleTracker) Start() <-chan Event {
 			case <-t.done:
 				return
 			case <-t.ticker.C:
-				t.c <- Event{
+				// the consumer may have stopped reading: do not block past Stop()
+				select {
+				case t.c <- Event{
 					Progress: t.current,
 					Total:    t.total,
+				}:
+				case <-t.done:
+					return
 				}
 			}
 		}
@@ -144,9 +149,13 @@ func (t *joinedTracker) Start() <-chan Event {
 			case <-t.done:
 				return
 			case <-t.ticker.C:
-				t.c <- Event{
+				select {
+				case t.c <- Event{
 					Progress: t.Current(),
 					Total:    t.Total(),
+				}:
+				case <-t.done:
+					return
 				}
 			}
 		}
